@@ -30,6 +30,10 @@ def main(argv):
     except ModuleNotFoundError:
         print(f"ANALYSIS-ERROR property={prop} no such check")
         return 2
+    except Exception as e:  # a broken checker is an analysis error, not a violation
+        traceback.print_exc()
+        print(f"ANALYSIS-ERROR property={prop} checker does not load: {type(e).__name__}: {e}")
+        return 2
     try:
         return mod.main(args.tier)
     except Exception as e:  # never let a traceback masquerade as a violation
